@@ -375,6 +375,7 @@ func TestCheck(t *testing.T) {
 			m.Run(run)
 		}
 	}
+	runSched(run)
 	os.Exit(run.Finish())
 }
 
@@ -383,6 +384,9 @@ func replay(run *report.Run, ms []*explore.Model) int {
 	if err != nil {
 		fmt.Println("HARNESS-ERROR", err)
 		return 2
+	}
+	if strings.HasPrefix(v.Part, "sched:") {
+		return replaySched(run, v)
 	}
 	if strings.HasPrefix(v.Part, "pure:") {
 		return replayPure(run, v)
